@@ -88,6 +88,10 @@ func (s *Server) DidSave(ctx context.Context, params *lsp.DidSaveTextDocumentPar
 
 func (s *Server) DidChange(ctx context.Context, params *lsp.DidChangeTextDocumentParams) error {
 	filename := params.TextDocument.URI.Filename()
+	if len(params.ContentChanges) == 0 {
+		// Nothing has changed (the protocol allows an empty list): keep the content.
+		return nil
+	}
 	content := params.ContentChanges[0].Text
 	verifPoint("DidChange:store")
 	s.docs[filename] = &document{
